@@ -52,6 +52,7 @@ type Thread struct {
 	fin    bool
 	res    threadResult
 	counts map[string]int
+	seq    []string // every yield point the thread arrived at, in order
 }
 
 type Ctl struct {
@@ -191,6 +192,7 @@ func (c *Ctl) RunUntil(name, point string, k int) stepOutcome {
 		case 1:
 			stable = 0
 			th.counts[p]++
+			th.seq = append(th.seq, p)
 			if p == point && th.counts[p] >= k {
 				c.logf("%s@%s#%d", name, p, th.counts[p])
 				th.parked = true
@@ -371,6 +373,7 @@ func (s *pStore) SizeInBytes() (int64, error)    { return s.inner.SizeInBytes() 
 func (s *pStore) Close() error                   { return s.inner.Close() }
 
 func (s *pStore) Read(f func(diskstore.BucketManager) error) error {
+	s.h.ctl.Yield("R.pre")
 	tx := &txRec{id: s.h.txCount.Add(1), owner: s.h.callerName()}
 	err := s.inner.Read(func(bm diskstore.BucketManager) error {
 		s.h.ctl.Yield("R.begin")
@@ -384,6 +387,7 @@ func (s *pStore) Read(f func(diskstore.BucketManager) error) error {
 }
 
 func (s *pStore) Write(f func(diskstore.BucketManager) error) error {
+	s.h.ctl.Yield("W.pre")
 	tx := &txRec{id: s.h.txCount.Add(1), write: true, owner: s.h.callerName()}
 	seq := int64(-1)
 	err := s.inner.Write(func(bm diskstore.BucketManager) error {
